@@ -88,7 +88,7 @@ def _annotations_from_paragraphs(
             "path": paths,
             "precedence": "aggregate",
             "SPDX-FileCopyrightText": copyrights,
-            "SPDX-License-Identifier": paragraph.license.to_str(),
+            "SPDX-License-Identifier": paragraph.license.synopsis,
         }
         comment = _comment_from_paragraph(paragraph)
         if comment:
